@@ -83,6 +83,8 @@ pub enum WOp {
     WriteCol(Val),
     /// try the first value; if the call is refused, write the second instead
     WriteColOr(Val, Val),
+    /// try a value that is expected to be refused and go on without it
+    WriteColRefused(Val),
     EndRow,
     WriteRow(Vec<Val>),
     Finish,
@@ -101,6 +103,7 @@ impl WOp {
             WOp::Start(c) => format!("start({})", c.len()),
             WOp::WriteCol(v) => format!("write_col({})", val_short(v)),
             WOp::WriteColOr(a, b) => format!("write_col({}) or, if refused, write_col({})", val_short(a), val_short(b)),
+            WOp::WriteColRefused(a) => format!("write_col({}) expecting a refusal", val_short(a)),
             WOp::EndRow => "end_row".into(),
             WOp::WriteRow(v) => format!("write_row({})", v.len()),
             WOp::Finish => "finish".into(),
@@ -287,6 +290,12 @@ pub fn run_prog<'a, W: Read + Write>(
                     r.write_col(b).map(|_| St::R(r))
                 }
             },
+            (St::R(mut r), WOp::WriteColRefused(a)) => {
+                if r.write_col(a).is_err() {
+                    calls.push(CallRes { cb, op: i, res: Err("refused as expected".into()) });
+                }
+                Ok(St::R(r))
+            }
             (St::R(mut r), WOp::EndRow) => r.end_row().map(|_| St::R(r)),
             (St::R(mut r), WOp::WriteRow(vs)) => r.write_row(vs.iter()).map(|_| St::R(r)),
             (St::R(r), WOp::Finish) => r.finish().map(|_| St::Done),
